@@ -828,7 +828,7 @@ def main():
                 spec_reqs.append(f"ewregspec mul {argstr} {ofm[0]} {ofm[1]}")
             else:
                 spec_reqs.append(f"ewregspec add {bd} {rev} {argstr} {opa[0]} {opa[1]} {opb[0]} {ofm[0]} {ofm[1]} {ret}")
-                ck.count("D2_branch_" + ("advanced" if opb[0] == 0 else "simplified"))
+                ck.count("D2_branch_" + ("advanced" if opb[0] == 0 else ("simplified_int16" if bd == 16 else "simplified_8bit")))
             spec_idx.append(i)
     outs = ck.model(reqs)
     sp = ck.model(spec_reqs)
